@@ -227,7 +227,17 @@ struct C19 : Property
 				{
 					int bs = reqsize;
 					LibScope ls;
-					printbuf_memappend_fast(pb, src.p, bs);
+					// the macro is used with int and with unsigned lengths (strlen / sizeof results) by callers
+					if ((old_bpos + reqsize) & 1)
+					{
+						size_t ubs = (size_t)reqsize;
+#pragma GCC diagnostic push
+#pragma GCC diagnostic ignored "-Wsign-compare"
+						printbuf_memappend_fast(pb, src.p, ubs);
+#pragma GCC diagnostic pop
+					}
+					else
+						printbuf_memappend_fast(pb, src.p, bs);
 					rc = (pb->bpos == old_bpos + bs) ? bs : -1;
 					// the macro reports nothing: a zero-length request whose growth failed is a failed request
 					if (bs == 0 && g_alloc.fired > 0 && pb->size == old_size)
